@@ -36,6 +36,7 @@ var importSubst = map[string]string{
 	"sync/atomic": "verifsim/sim/simatomic",
 	"net":         "verifsim/sim/simnet",
 	"crypto/rand": "verifsim/sim/simrand",
+	"time":        "verifsim/sim/simtime",
 }
 
 // Options configures a rewriter run.
@@ -331,6 +332,11 @@ func (c *fileCtx) rewriteFile(f *ast.File) {
 				}(cm.Text)
 			}
 		}
+	}
+
+	c.rewriteSelects(f)
+	if c.err != nil {
+		return
 	}
 
 	if sel, ok := stmtYieldFiles[c.relFile]; ok && c.variant == "stmt" {
